@@ -348,11 +348,43 @@ def _s3_repeatable_grouping(program, res):
         raise AnalysisError("C19-S3: the joins of _natural_join_step were not found")
 
 
+def _s1b_array_views_written(program, res):
+    """`column.array` / `column.values` are the column's own storage, not a copy, and a store into them is not covered by pandas' copy-on-write: the intermediate
+    frames the executor works on are lazy copies that still share their buffers with the caller's table, so `filled = a.array; filled[missing] = …` writes into the
+    caller's frame.  Every store into such a view of an argument is reported"""
+    mod = program.module("pandas_base")
+    n = 0
+    for f in program.all_functions():
+        if f.module is not mod:
+            continue
+        params = set(f.params()) - {"self"}
+        views = {}
+        for st in ast.walk(f.node):
+            if isinstance(st, ast.Assign) and len(st.targets) == 1 and isinstance(st.targets[0], ast.Name):
+                v = st.value
+                is_view = isinstance(v, ast.Attribute) and v.attr in ("array", "values", "_values") and isinstance(v.value, ast.Name) and v.value.id in params
+                views.setdefault(st.targets[0].id, []).append((st.lineno, is_view, st))
+        for st in ast.walk(f.node):
+            if isinstance(st, (ast.Assign, ast.AugAssign)):
+                for t in (st.targets if isinstance(st, ast.Assign) else [st.target]):
+                    if isinstance(t, ast.Subscript) and isinstance(t.value, ast.Name) and t.value.id in views:
+                        n += 1
+                        before = [x for x in views[t.value.id] if x[0] <= st.lineno]
+                        if before and max(before, key=lambda x: x[0])[1]:
+                            res.analysed(f)
+                            res.fail_at("C19-S1", f, f"array-view-written:{f.name}",
+                                        f"`{unparse(st)[:60]}` stores into `{unparse(max(before, key=lambda x: x[0])[2].value)}`, the storage of an argument column itself: the executor's "
+                                        f"working frames share buffers with the caller's table (copy-on-write does not cover a store into `.array`), so the caller's column is "
+                                        f"overwritten and a second evaluation of the same pipeline on the same input differs", st)
+    res.ok("C19-S1", f"no store into the `.array` / `.values` of an argument column in the Pandas executor ({n} stores into locals looked at)", nontrivial=n > 0)
+
+
 def run(program, res, tier):
     res.rule("C19-S1", "no in-place effect reaches a caller-owned frame; table steps return fresh frames")
     res.rule("C19-S2", "evaluation and SQL generation never mutate the operator nodes")
     _s1(program, res)
     _s1_all_steps(program, res)
+    _s1b_array_views_written(program, res)
     _s2(program, res)
     res.rule("C19-S3", "repeatable: result-producing Polars groupings keep a deterministic order")
     _s3_repeatable_grouping(program, res)
